@@ -143,7 +143,7 @@ theorem genTimeline_live_time (audio : Bool) (sn : Int) (segDur : Int) (ts fn fd
     intro idx total
     obtain ⟨t, d⟩ := x
     simp only [genTimeline.go, List.map_cons, timeExp, Bool.not_true, Bool.false_and]
-    simp [ih, timeExp]
+    simp [ih]
 
 theorem fetchAll_length (exps : List SegExp) (obs : List SegObs) (h : exps.length = obs.length) :
     (fetchAll exps obs).length = exps.length := by
@@ -404,14 +404,10 @@ theorem validator_detects_init_box (o : InitObs) (i : Nat) (names : List String)
     (habs : ∀ nm ∈ names, nm ∉ o.moov)
     (hload : (initLoad o).2 = true) (htop : 1 < o.top.length) :
     InitErr.mandatory i ∈ initErrors o := by
-  have hne : names.any (fun x => o.moov.contains x) = false := by
-    rw [List.any_eq_false]
-    intro x hx
-    simpa using habs x hx
   have hmem : InitErr.mandatory i ∈ mandatoryErrors o.moov := by
     unfold mandatoryErrors
     rw [List.mem_filterMap]
-    exact ⟨(names, i), List.mem_zipIdx_iff_getElem?.mpr hi, by simp [hne]⟩
+    exact ⟨(names, i), List.mem_zipIdx_iff_getElem?.mpr hi, by simpa using habs⟩
   have : initErrors o = initValidateLoaded o := by
     unfold initErrors; simp [hload]
   rw [this]
@@ -454,7 +450,7 @@ theorem validator_accepts_init (o : InitObs) (hurl : o.hasUrl = true)
     (hmand : ∀ names ∈ mandatoryMoovBoxes, ∃ nm ∈ names, nm ∈ o.moov) :
     initErrors o = [] := by
   have hl : initLoad o = ([], true) := by
-    unfold initLoad; simp [hurl, hst, hmoov, hproc]
+    unfold initLoad; simpa [hurl, hst, hmoov] using hproc
   have : initErrors o = initValidateLoaded o := by
     unfold initErrors; simp [hl]
   rw [this]
@@ -464,9 +460,7 @@ theorem validator_accepts_init (o : InitObs) (hurl : o.hasUrl = true)
   rw [List.filterMap_eq_nil_iff]
   intro p hp
   obtain ⟨nm, hnm, hc⟩ := hmand p.1 (List.fst_mem_of_mem_zipIdx hp)
-  have : p.1.any (fun x => o.moov.contains x) = true :=
-    List.any_eq_true.mpr ⟨nm, hnm, by simpa using hc⟩
-  simp [this]
+  simpa using ⟨nm, hnm, hc⟩
 
 /-! ## 5. MPD attributes -/
 
@@ -515,7 +509,7 @@ theorem validator_accepts_manifest (d : Doc) (h : ServerShaped d) : docErrors d 
   have hr := List.fst_mem_of_mem_zipIdx hrr
   simp only at hr
   obtain ⟨r1, r2⟩ := a3 r hr
-  simp [r1, r2]
+  simp only [r1, r2, List.map_nil, List.append_nil]
 
 /-- **a mandatory MPD-level attribute removed** – reported at the MPD element -/
 theorem validator_detects_mpd_attribute (d : Doc) :
@@ -537,9 +531,8 @@ theorem validator_detects_mpd_attribute (d : Doc) :
   · intro hl h ⟨p, hp, hpd⟩
     apply key; unfold mpdErrors
     simp only [hl, h, Bool.false_eq_true, if_false]
-    have : MErr.durationMissing ∈ (d.periods.filter fun p => ¬ p.hasDuration).map fun _ => MErr.durationMissing :=
-      List.mem_map.mpr ⟨p, List.mem_filter.mpr ⟨hp, by simp [hpd]⟩, rfl⟩
-    simp [this]
+    simp
+    exact ⟨p, hp, hpd⟩
 
 /-- **Period@id removed (live)** – reported at that Period -/
 theorem validator_detects_period_id (d : Doc) (pi : Nat) (p : PeriodAttrs)
@@ -577,7 +570,6 @@ theorem docErrors_of_rep (d : Doc) (pi ai ri : Nat) (p : PeriodAttrs) (a : AdpAt
   apply List.mem_append_right
   rw [List.mem_flatMap]
   refine ⟨(a, ai), List.mem_zipIdx_iff_getElem?.mpr ha, ?_⟩
-  apply List.mem_append_right
   apply List.mem_append_right
   rw [List.mem_flatMap]
   refine ⟨(r, ri), List.mem_zipIdx_iff_getElem?.mpr hr, ?_⟩
@@ -696,7 +688,7 @@ example : located (repPass exCtx none (fetchAll
     ((sliceG [960, 960, 960, 960] 3840 5 3).map (timeExp 10))
     [exObs 6 4800, exObs 7 5760, exObs 8 6720])) = [] := by decide
 
-example : ∀ i, i + 1 < 3 → startG [960, 960, 960, 960] 3840 (5 + i + 1) / 960
+example : ∀ i, i < 2 → startG [960, 960, 960, 960] 3840 (5 + i + 1) / 960
     = startG [960, 960, 960, 960] 3840 (5 + i) / 960 + 1 := by decide
 
 /-- the same stream in `$Number$` addressing, numbers 6, 7, 8 -/
@@ -712,7 +704,7 @@ example : startG [960, 480, 1440, 960] 3840 2 / 960 ≠ startG [960, 480, 1440, 
   decide
 
 def exObsDur (seq tfdt d : Nat) : SegObs :=
-  { exObs seq tfdt with samples := [⟨10, d, 0⟩, ⟨10, 0, 1⟩, ⟨10, 0, 2⟩, ⟨10, 0, 3⟩] }
+  { (exObs seq tfdt) with samples := [⟨10, d, 0⟩, ⟨10, 0, 1⟩, ⟨10, 0, 2⟩, ⟨10, 0, 3⟩] }
 
 example : located (repPass exCtx none (fetchAll
     ((sliceG [960, 480, 1440, 960] 3840 1 2).map (timeExp 10))
@@ -723,21 +715,21 @@ tolerance (10 ticks) makes the validator reject the first segment of the next lo
 `$Number$` addressing -/
 example : located (repPass exCtx none (fetchAll
     ((List.range 2).map (numberExp 960 (templateTolerance false 240 24 1) 4))
-    [exObs 4 2880, exObs 5 4340])) = [(1, SegErr.chain), (1, SegErr.decodeTime)] := by decide
+    [exObs 4 2880, exObs 5 4340])) = [(1, SegErr.decodeTime)] := by decide
 
 /-- each catalogue corruption on the concrete fragment: decode time +11 ticks (tolerance 10),
 sequence number +1, trun offset +4, and the tolerance boundary itself (+10 is accepted) -/
 example : validateSegment exCtx (timeExp 10 (5760, 960)) (exObs 7 5771) = [SegErr.decodeTime] := by decide
 example : validateSegment exCtx (timeExp 10 (5760, 960)) (exObs 7 5770) = [] := by decide
-example : validateSegment exCtx { timeExp 10 (5760, 960) with expSeq := some 7 } (exObs 8 5760)
+example : validateSegment exCtx { (timeExp 10 (5760, 960)) with expSeq := some 7 } (exObs 8 5760)
     = [SegErr.seqNum] := by decide
-example : validateSegment exCtx (timeExp 10 (5760, 960)) { exObs 7 5760 with dataOffset := 124 }
+example : validateSegment exCtx (timeExp 10 (5760, 960)) { (exObs 7 5760) with dataOffset := 124 }
     = [SegErr.trunFirst, SegErr.trunLast] := by decide
 
 /-- an encrypted fragment whose saio offset is off by one -/
 example : validateSegment { exCtx with optEncrypted := true, infoEncrypted := true, ivKnown := true }
     (timeExp 10 (5760, 960))
-    { exObs 7 5760 with senc := some (40, 16, 4), saio := some [57] } = [SegErr.saioOffset] := by decide
+    { (exObs 7 5760) with senc := some (40, 16, 4), saio := some [57] } = [SegErr.saioOffset] := by decide
 
 /-- a gap: the timeline of positions 5, 6, 7 with 6 removed -/
 example : located (repPass exCtx none (fetchAll
@@ -745,12 +737,13 @@ example : located (repPass exCtx none (fetchAll
   decide
 
 /-- init segment as served, and with `mvex` (→ also `trex`) removed -/
-example : initErrors { hasUrl := true, status := 200, video := true, top := ["ftyp", "free", "moov"],
-    moov := ["mvhd", "mvex", "trex", "trak", "tkhd", "mdia", "mdhd", "hdlr", "minf", "vmhd", "dinf",
-             "stbl", "stsd", "stts", "stsc", "stsz", "stco"] } = [] := by decide
-example : initErrors { hasUrl := true, status := 200, video := true, top := ["ftyp", "free", "moov"],
-    moov := ["mvhd", "trak", "tkhd", "mdia", "mdhd", "hdlr", "minf", "vmhd", "dinf",
-             "stbl", "stsd", "stts", "stsc", "stsz", "stco"] }
+def exInit (moov : List String) : InitObs :=
+  { hasUrl := true, status := 200, video := true, top := ["ftyp", "free", "moov"], moov := moov }
+
+example : initErrors (exInit ["mvhd", "mvex", "trex", "trak", "tkhd", "mdia", "mdhd", "hdlr", "minf",
+    "vmhd", "dinf", "stbl", "stsd", "stts", "stsc", "stsz", "stco"]) = [] := by decide
+example : initErrors (exInit ["mvhd", "trak", "tkhd", "mdia", "mdhd", "hdlr", "minf",
+    "vmhd", "dinf", "stbl", "stsd", "stts", "stsc", "stsz", "stco"])
     = [InitErr.mandatory 1, InitErr.mandatory 2] := by decide
 
 /-- a live manifest as served … -/
@@ -764,7 +757,10 @@ def exDoc : Doc :=
 
 example : docErrors exDoc = [] := by decide
 /-- … without `Period@id`, and without `SegmentTemplate@media` -/
-example : docErrors { exDoc with periods := [{ (exDoc.periods.head!) with hasId := false }] }
+example : docErrors { exDoc with periods := [{ hasId := false, hasDuration := false, adps := [
+      { hasMimeType := true,
+        template := some { hasMedia := true, hasInit := true, hasDuration := true, timeline := none },
+        reps := [{ hasId := true, hasBandwidth := true, hasMimeType := true }] }] }] }
     = [(MLoc.period 0, MErr.periodId)] := by decide
 example : docErrors { exDoc with periods := [{ hasId := true, hasDuration := false, adps := [
       { hasMimeType := true,
@@ -773,9 +769,12 @@ example : docErrors { exDoc with periods := [{ hasId := true, hasDuration := fal
     = [(MLoc.representation 0 0 0, MErr.media)] := by decide
 
 /-- refresh: availabilityStartTime one second later; and the `stale` boundary (`age < 3·mup`) -/
-example : refreshErrors { idEqual := true, prevAst := some 0, ast := some 1000000, prevPublish := 0,
-    publish := 8000000, mup := some 8000000 } = [RefreshErr.availabilityStartTime] := by decide
-example : refreshErrors { idEqual := true, prevAst := some 0, ast := some 0, prevPublish := 0,
-    publish := 24000000, mup := some 8000000 } = [RefreshErr.stale] := by decide
+def exRefresh (ast publish : Int) : Refresh :=
+  { idEqual := true, prevAst := some 0, ast := some ast, prevPublish := 0, publish := publish,
+    mup := some 8000000 }
+
+example : refreshErrors (exRefresh 1000000 8000000) = [RefreshErr.availabilityStartTime] := by decide
+example : refreshErrors (exRefresh 0 24000000) = [RefreshErr.stale] := by decide
+example : refreshErrors (exRefresh 0 23999999) = [] := by decide
 
 end DashLive.Validator
